@@ -438,3 +438,25 @@ PROPS["C05"] = dict(
     exhaustive_scope={"quick": "every binary operator x every ordered pair of 34 boundary values, every unary operator and every fixed-arity static function x every boundary value, each in 8 contexts with and without try",
                       "thorough": "every binary operator x every ordered pair of 34 boundary values, every unary operator and every fixed-arity static function x every boundary value, each in 8 contexts with and without try"},
 )
+
+
+PROPS["C11"] = dict(
+    pkg="c11",
+    replay_race=True,
+    rule=("programs from the C01/C10 generator with a constant-rich profile (constant lists, maps and closures that the optimizer folds and that "
+          "are therefore shared between evaluations; lazily produced constant lists, appends to constants) x 2..16 goroutines that are "
+          "released by a barrier and evaluate the SAME generated function, with equal or different argument tuples, GOMAXPROCS from "
+          "{1,2,4,16}, two repetitions, each repetition on a freshly generated function (nothing is warmed up: the first touch of every "
+          "constant happens under concurrency), in a binary built with the race detector (GORACE=halt_on_error=0; every case is announced "
+          "on stderr so that each race report is attributed to the case that was running). Oracle: every goroutine's outcome equals the "
+          "reference interpreter's outcome for its own arguments; every race report is a violation unless it matches the open finding "
+          "F18. Non-trivial: at least two evaluations overlapped in time (measured) on a program with an argument independent list, map "
+          "or closure; distinct = program text + concurrency shape."),
+    assumptions=["schedules are sampled; the race detector reports only races that happen in a sampled run",
+                 "race reports are attributed to the case announced last before the report"],
+    jobs=[dict(name="c11", run="^TestPropC11$", kind="rapid", race=True, shards=16, checks={"quick": 24000, "thorough": 800000},
+               env={"GORACE": "halt_on_error=0"}, race_reports=True,
+               race_known=[{"finding": "F18", "one_side_matches": r"parser2/value\.\(\*List\)\.(Eval|Append)(\(|-|\.)"}],
+               guard={"quick": 1200, "thorough": 10800})],
+    min_class_fraction={"evaluations_overlapped": 0.3, "constant_list": 0.2, "different_arguments": 0.3},
+)
